@@ -219,6 +219,22 @@ Theorem C09_conv_nan_iff : forall qs data kernel wkx wky i j,
 Proof. exact wsum_none. Qed.
 Print Assumptions C09_conv_nan_iff.
 
+(* ... and for EVERY arithmetic instance whose operations absorb NaN (nan_absorbing: a NaN operand of + or *
+   gives NaN, widen / narrow keep NaN — IEEE arithmetic has this; proved here for the exact instance), a NaN cell
+   under the window, even under a zero weight, or a NaN weight makes the output cell NaN *)
+Theorem C09_conv_nan_propagates : forall (A : Arith), nan_absorbing A ->
+  forall data kernel wkx wky i j,
+  (exists a b, 0 <= a < 2 * wkx + 1 /\ 0 <= b < 2 * wky + 1 /\
+               (disnan A (get2 (dnan A) kernel a b) = true \/
+                sisnan A (get2 (snan A) data (i + a - wkx) (j + b - wky)) = true)) ->
+  sisnan A (narrow A (wsum A data kernel wkx wky i j)) = true.
+Proof. exact wsum_nan_propagates. Qed.
+Print Assumptions C09_conv_nan_propagates.
+
+Theorem C09_exact_nan_absorbing : forall qs, nan_absorbing (ExactArith qs).
+Proof. exact exact_nan_absorbing. Qed.
+Print Assumptions C09_exact_nan_absorbing.
+
 (* ---------------- non-vacuity ---------------- *)
 (* a 3 x 4 raster with a NaN, an asymmetric 3 x 5 kernel (hr = 1, hc = 2): the hypotheses hold and BOTH
    instances of the model compute the sums of exactly the cells under the kernel (worked out by hand: the kernel
